@@ -81,11 +81,16 @@ def gen_array(rng, nops, kind, flags):
     ops = []
     while len(ops) < nops:
         r, s = pick_regs(rng)
-        k = rng.choice(["push"] * 6 + ["appc"] * 3 + ["appm"] * 2 + ["asgc", "asgm", "ctorc", "ctorm", "ctorn", "clear", "reset",
+        k = rng.choice(["push"] * 6 + ["pushi"] * 3 + ["appc"] * 3 + ["appm"] * 2 + ["asgc", "asgm", "ctorc", "ctorm", "ctorn", "clear", "reset",
                                                                      "detach", "reserve", "resize", "resize", "resizei", "expect",
                                                                      "compress", "drop", "drop"])
         if k == "push":
             ops.append("push:%d:%d" % (r, rng.choice([0, 1, 7, 42, 1000, rng.randrange(0, 100000)]))); ln[r] += 1
+        elif k == "pushi":
+            # the argument is an item of the array itself (const&), at every fill level incl. exactly full
+            if not flags["array_alias_item"] or ln[r] == 0 or ln[r] >= MAXLEN:
+                continue
+            ops.append("pushi:%d:%d" % (r, rng.choice([0, ln[r] - 1, rng.randrange(ln[r]), ln[r]]))); ln[r] += 1
         elif k == "appc":
             if r == s and not flags["array_self_appc"] and ln[r] > 0:
                 continue
@@ -137,6 +142,8 @@ def array_alphabet(flags):
          "resize:0:1", "resize:0:3", "resizei:0:3", "resizei:0:0", "expect:0:2", "compress:0", "drop:0:1", "drop:0:0"]
     if flags["array_self_appc"]:
         a.append("appc:0:0")
+    if flags["array_alias_item"]:
+        a += ["pushi:0:0", "pushi:0:1", "pushi:1:0"]
     return a
 
 
@@ -151,7 +158,7 @@ def gen_string(rng, nops, w, flags):
         r, s = pick_regs(rng)
         t = rng.randrange(3)
         k = rng.choice(["ctoru", "ctoru", "ctorf", "adopt", "ctorc", "ctorm", "asgc", "asgm", "asgu", "appc", "appc", "appm", "appu", "appu",
-                        "appch", "appch", "plus", "plusm", "plusu", "trim", "trim", "stepback", "stepback", "reverse", "insertat",
+                        "appch", "appch", "appo", "appo", "asgo", "plus", "plusm", "plusu", "trim", "trim", "stepback", "stepback", "reverse", "insertat",
                         "insertat", "reset", "detach", "cmp", "cmp", "cmpu"])
         if k in ("ctoru", "ctorf", "adopt"):
             u = rand_units(rng, w, zero=(k != "ctoru" or rng.random() < 0.2)); ops.append("%s:%d:%s" % (k, r, su(u))); ln[r] = len(u)
@@ -179,6 +186,18 @@ def gen_string(rng, nops, w, flags):
             v = rng.randrange(3); u = rand_units(rng, w, zero=(v == 2)); ops.append("appu:%d:%d:%s" % (v, r, su(u))); ln[r] += len(u)
         elif k == "appch":
             c = rng.choice(unit_pool(w) + [0]); ops.append("appch:%d:%d" % (r, c)); ln[r] += 1
+        elif k == "appo":
+            # Write / += / << with a pointer into the string's own block: front, middle, end, overlapping its tail
+            if not flags["string_write_own"]:
+                continue
+            off = rng.choice([0, 0, ln[r] // 2, max(ln[r] - 1, 0), ln[r], near(rng, ln[r])]); n = rng.choice([0, 1, ln[r], near(rng, ln[r])])
+            if 2 * ln[r] > MAXLEN:
+                continue
+            ops.append("appo:%d:%d:%d:%d" % (rng.randrange(3), r, off, n)); ln[r] += ln[r]
+        elif k == "asgo":
+            if not flags["string_asg_own"]:
+                continue
+            ops.append("asgo:%d:%d" % (r, rng.choice([0, 1, ln[r] // 2, ln[r], near(rng, ln[r])])))
         elif k in ("plus", "plusm"):
             if ln[s] + ln[t] > MAXLEN:
                 continue
@@ -218,6 +237,10 @@ def string_alphabet(flags):
          "insertat:0:66:0", "insertat:0:66:1", "reset:0", "detach:0", "cmp:0:0:1", "cmp:2:0:1", "cmp:5:0:1", "cmpu:0:0:97,32", "cmpu:6:0:-"]
     if flags["string_stepback0"]:
         a.append("stepback:0:0")
+    if flags["string_write_own"]:
+        a += ["appo:0:0:1:2", "appo:1:0:0:0", "appo:2:0:2:0", "appo:0:0:0:9"]
+    if flags["string_asg_own"]:
+        a += ["asgo:0:0", "asgo:0:1", "asgo:0:9"]
     return a
 
 
@@ -231,6 +254,7 @@ def gen_stream(rng, nops, w, flags):
     while len(ops) < nops:
         r, s = pick_regs(rng)
         k = rng.choice(["ctorn", "ctorc", "ctorm", "asgc", "asgm", "asgu", "pushch", "pushch", "pushch", "apps", "apps", "shls", "appu", "appu", "appu",
+                        "appo", "appo", "appo", "asgo",
                         "clear", "reset", "detach", "stepback", "stepback", "reverse", "insertat", "insertat", "setlen", "buffer", "expect",
                         "reserve", "getstr", "getview", "insnull", "eqs", "equ"])
         if k == "ctorn":
@@ -257,6 +281,14 @@ def gen_stream(rng, nops, w, flags):
             ops.append("%s:%d:%d" % (k, r, s)); ln[r] += ln[s]
         elif k == "appu":
             v = rng.randrange(7); u = rand_units(rng, w, zero=True); ops.append("appu:%d:%d:%s" % (v, r, su(u))); ln[r] += len(u)
+        elif k == "appo":
+            # Write / += / << with a range, a view or a C string inside the stream's own buffer (the call usually grows it)
+            if not flags["stream_alias_write"] or 2 * ln[r] > MAXLEN:
+                continue
+            off = rng.choice([0, 0, ln[r] // 2, max(ln[r] - 1, 0), ln[r], near(rng, ln[r])]); n = rng.choice([0, 1, ln[r], near(rng, ln[r])])
+            ops.append("appo:%d:%d:%d:%d" % (rng.randrange(6), r, off, n)); ln[r] += ln[r]
+        elif k == "asgo":
+            ops.append("asgo:%d:%d:%d:%d" % (rng.randrange(2), r, rng.choice([0, 1, ln[r] // 2, ln[r]]), rng.choice([0, 1, ln[r], near(rng, ln[r])])))
         elif k in ("clear", "reset", "detach", "getstr"):
             ops.append("%s:%d" % (k, r)); ln[r] = 0
         elif k == "stepback":
@@ -295,6 +327,9 @@ def stream_alphabet(flags):
          "insnull:0", "eqs:0:0:1", "equ:0:0:0:97,98", "equ:2:1:0:-"]
     if flags["stream_self_shl"]:
         a.append("shls:0:0")
+    a += ["asgo:0:0:1:2", "asgo:1:0:1:0"]
+    if flags["stream_alias_write"]:
+        a += ["appo:0:0:1:2", "appo:1:0:0:9", "appo:2:0:2:1", "appo:3:0:1:0", "appo:4:0:0:0", "appo:5:0:0:0"]
     return a
 
 
@@ -498,6 +533,61 @@ def corpus_lines():
     return out
 
 
+# Operations whose argument lies inside the container's own storage while the call reallocates it.
+# Each family is probed alone first: a failing probe is a failing input of the property (ctx.fail with
+# the family's key) and the family is then left out of the generated programs (it would end every batch).
+ALIAS_PROBES = {
+    "array-alias-item": ("array_alias_item", [
+        "seq-array i push:0:1;push:0:2;pushi:0:0;pushi:0:2;pushi:0:1;pushi:0:0;pushi:0:4",
+        "seq-array s push:0:1;push:0:2;pushi:0:1;pushi:0:0;pushi:0:2;pushi:0:3;pushi:0:1",
+        "seq-array s ctorn:0:3:0;push:0:7;pushi:0:0;pushi:0:0;pushi:0:2"]),
+    "stream-alias-write": ("stream_alias_write", [
+        "seq-stream 1 x appu:2:0:97,98,99,100,101,102,103,104;appo:0:0:2:4;appo:0:0:0:12",
+        "seq-stream 2 x appu:2:0:97,98,99;appo:1:0:1:2;appo:2:0:0:5",
+        "seq-stream 4 x appu:2:0:97,98,99;appo:3:0:1:0;appo:4:0:0:0",
+        "seq-stream 1 x appu:2:0:97,98,99;appo:5:0:0:0;appo:5:0:0:0"]),
+    "string-assign-own-pointer": ("string_asg_own", [
+        "seq-string 1 ctoru:0:97,98,99,100;asgo:0:2;asgo:0:0;asgo:0:2",
+        "seq-string 2 ctoru:0:97,98,99;asgo:0:1;asgo:0:3"]),
+    "string-write-own-pointer": ("string_write_own", [
+        "seq-string 1 ctoru:0:97,98,99,100;appo:0:0:1:2;appo:1:0:0:0;appo:2:0:5:0;appo:0:0:0:99",
+        "seq-string 4 ctoru:0:97,98,99;appo:1:0:3:0;appo:0:0:2:1;appo:2:0:1:0"]),
+}
+_alias_cache = {}
+
+
+def alias_flags(ctx, exe, drv, report=True):
+    key = (exe, core.include_hash())
+    if key not in _alias_cache:
+        res = {}
+        for fkey, (flag, lines) in ALIAS_PROBES.items():
+            bad = None
+            for ln in lines:
+                impl, faults = core.run_lines(exe, [ln])
+                kind = ln.split(" ")[0][4:]
+                spec, _ = core.run_lines(drv, [ln.replace("seq-" + kind, "seq-" + kind + "-spec", 1)], env=None)
+                out = impl[0].split(" ##L ")[0]
+                if faults:
+                    bad = (ln, "sanitizer fault %s" % faults[0][1], faults[0][2], out, spec[0])
+                else:
+                    got, problems = to_spec_format(kind, out)
+                    if problems or got != spec[0]:
+                        bad = (ln, "result differs from the List specification (%s)" % "; ".join(problems[:2]), "", out, spec[0])
+                if bad:
+                    break
+            res[flag] = (fkey, bad)
+        _alias_cache[key] = res
+    flags = {}
+    for flag, (fkey, bad) in _alias_cache[key].items():
+        flags[flag] = bad is None
+        if bad and report:
+            ctx.fail(fkey, "%s when the argument lies inside the container's own storage: %s" % (bad[1], bad[0]),
+                     {"line": bad[0], "stderr": bad[2][-3000:], "impl_output": bad[3], "list_spec": bad[4]})
+        if report:
+            ctx.count("probe:" + fkey, len(ALIAS_PROBES[fkey][1]), len(ALIAS_PROBES[fkey][1]))
+    return flags
+
+
 def build_driver_all_areas(ctx):
     """The driver imports every area's Generated module (git-ignored); C14 has no constants of its
     own, so make sure the others exist before `lake build qdriver` (a fresh checkout has none)."""
@@ -517,6 +607,10 @@ def run_area(ctx):
         return
     rng = ctx.rng
     flags = {"array_self_appc": True, "stream_self_shl": True, "string_stepback0": True}   # all repaired (5f6da32, c1884a5, 6bc11c7)
+    flags.update(alias_flags(ctx, h_x, drv))
+    ctx.c14_flags = flags
+    from checks import _c14_api
+    ctx.notes.append({"public_api_not_driven": _c14_api.audit()[1], "alias_families_enabled": {k: v for k, v in flags.items()}})
     T = ctx.thorough
     corpus = corpus_lines()
 
